@@ -43,6 +43,7 @@ class Val:
 
 UNKNOWN = Val("unknown")
 UNIT = Val("unit")
+NONE_V = Val("variant", "None", "core::option::Option")
 
 
 def variant(adt, name):
@@ -140,6 +141,8 @@ class Interp:
         self.body = body
         self.call_model = call_model
         self.max_steps = max_steps
+        self.depth = 0
+        self._res = None
 
     # ---------------------------------------------------------------- places
     def read_place(self, env, p):
@@ -235,6 +238,9 @@ class Interp:
                 return Val("adt", list(payload) or [UNIT], ("core::ops::control_flow::ControlFlow", "Continue"))
             if nm in ("Err", "None"):
                 return Val("adt", [Val("adt", list(payload), d[0].extra)] if d[0].k == "adt" else [d[0]], ("core::ops::control_flow::ControlFlow", "Break"))
+        r = self.option_combinators(cs, args, d)
+        if r is not None:
+            return r
         if cs.is_("core::option::Option::is_none") and d and d[0].k in ("variant", "adt"):
             nm = d[0].v if d[0].k == "variant" else d[0].extra[1]
             return vbool(nm == "None")
@@ -243,11 +249,97 @@ class Interp:
             return vbool(nm == "Some")
         return None
 
+    # ---------------------------------------------------------------- Option/Result combinators and closures
+    def call_closure(self, cs, fval, cargs):
+        """evaluate a closure (or fn item) value on abstract arguments with this interpreter's call model"""
+        f = fval.deref() if fval is not None else None
+        key = None
+        if f is not None and f.k == "adt" and f.extra and f.extra[0] == "closure":
+            key = f.extra[1]
+        elif f is not None and f.k == "fn":
+            key = f.v
+        elif len(cs.gbodies) == 1:
+            key = cs.gbodies[0]
+        prog = getattr(self.body, "prog", None)
+        cb = prog.body(key) if (prog is not None and key) else None
+        if cb is None or self.depth > 6:
+            return UNKNOWN
+        sub = Interp(cb, self.call_model, self.max_steps)
+        sub.depth = self.depth + 1
+        if cb.kind == "Closure":
+            init = {1: f if f is not None else UNKNOWN}
+            for i, a in enumerate(cargs):
+                init[2 + i] = a
+        else:
+            init = {1 + i: a for i, a in enumerate(cargs)}
+        r = sub.run(init)
+        if self._res is not None:
+            self._res.calls.extend(r.calls)
+        if r.kind != "return" or r.ret is None:
+            return UNKNOWN
+        return r.ret
+
+    def option_combinators(self, cs, args, d):
+        fn = cs.fn or ""
+        if not (fn.startswith("core::option::Option::") or fn.startswith("core::result::Result::")) or not d:
+            return None
+        m = fn.rsplit("::", 1)[1]
+        a = d[0]
+        if a.k not in ("variant", "adt"):
+            return None
+        nm = a.v if a.k == "variant" else (a.extra[1] if a.extra else None)
+        payload = (a.v[0] if a.k == "adt" and a.v else UNIT)
+        is_opt = fn.startswith("core::option::Option::")
+        pos = nm in ("Some", "Ok")
+        neg = nm in ("None", "Err")
+        if not (pos or neg):
+            return None
+        if m in ("as_ref", "as_mut", "as_deref", "as_deref_mut", "cloned", "copied", "take"):
+            return a if neg else Val("adt", [payload.deref() if m in ("cloned", "copied", "as_deref") else payload], a.extra)
+        if m == "or" and is_opt:
+            return a if pos else args[1]
+        if m == "and" and is_opt:
+            return args[1] if pos else a
+        if m == "unwrap_or":
+            return payload if pos else args[1]
+        if m == "unwrap_or_else":
+            return payload if pos else self.call_closure(cs, args[1], [] if is_opt else [payload])
+        if m == "or_else" and is_opt:
+            return a if pos else self.call_closure(cs, args[1], [])
+        if m == "and_then":
+            return self.call_closure(cs, args[1], [payload]) if pos else a
+        if m == "map":
+            return Val("adt", [self.call_closure(cs, args[1], [payload])], a.extra) if pos else a
+        if m == "map_err" and not is_opt:
+            return a if pos else Val("adt", [self.call_closure(cs, args[1], [payload])], a.extra)
+        if m == "map_or":
+            return self.call_closure(cs, args[2], [payload]) if pos else args[1]
+        if m == "map_or_else":
+            return self.call_closure(cs, args[2], [payload]) if pos else self.call_closure(cs, args[1], [] if is_opt else [payload])
+        if m == "ok_or" and is_opt:
+            return Val("adt", [payload], ("core::result::Result", "Ok")) if pos else Val("adt", [args[1]], ("core::result::Result", "Err"))
+        if m == "ok_or_else" and is_opt:
+            return Val("adt", [payload], ("core::result::Result", "Ok")) if pos else Val("adt", [self.call_closure(cs, args[1], [])], ("core::result::Result", "Err"))
+        if m == "ok" and not is_opt:
+            return Val("adt", [payload], ("core::option::Option", "Some")) if pos else NONE_V
+        if m in ("is_some", "is_ok"):
+            return vbool(pos)
+        if m in ("is_none", "is_err"):
+            return vbool(neg)
+        if m == "filter" and is_opt and pos:
+            r = self.call_closure(cs, args[1], [Val("ref", payload)])
+            r = r.deref()
+            if r.k == "bool":
+                return a if r.v else NONE_V
+            return UNKNOWN
+        return None
+
     # ---------------------------------------------------------------- run
     def run(self, init, start_bb=0):
         body = self.body
         env = dict(init)
         res = Result()
+        self._res = res
         bb = start_bb
         steps = 0
         while True:
@@ -340,6 +432,8 @@ class Interp:
                 if not ops:
                     return variant(strip_generics(rv["adt"]), rv["variant"])
                 return Val("adt", ops, (strip_generics(rv["adt"]), rv["variant"]))
+            if rv.get("agg") == "closure":
+                return Val("adt", ops, ("closure", rv.get("def")))
             return UNKNOWN
         if k == "cast":
             return self.operand(env, rv["op"])
